@@ -696,7 +696,12 @@ pub fn drive(check: &CheckDef, opts: &DriverOpts) -> i32 {
         println!("KNOWN-FINDING: property={} {} ({} occurrences this run)", check.property, k, n);
     }
     for (k, n) in &off_property {
-        eprintln!("NOTE: observation outside this check's property (reported by that property's own check): {k} x{n}");
+        let owner = k.split(' ').next().unwrap_or("");
+        if crate::checks::ALL.contains(&owner) {
+            eprintln!("NOTE: observation outside this check's property (reported by that property's own check): {k} x{n}");
+        } else {
+            eprintln!("NOTE: observation that belongs to no claimed property (not judged here, see DESIGN.md section 13): {k} x{n}");
+        }
     }
     for l in &out_lines {
         println!("{l}");
